@@ -30,10 +30,130 @@ def run(chk):
            'column is logica_value at every writer', min_instances=9)
   column_names(chk, 'C01-R3')
 
+  chk.rule('C01-R5', 'multiplicities: conjunction of DNFs is a product, '
+           'disjunction a concatenation, each alternative its own rule; '
+           'injection merges every component of the injected structure; WHERE '
+           'is the AND of all constraints, FROM a cross join; every argument '
+           'of a body literal is unified with its column', min_instances=12)
+  merge_and_product(chk, 'C01-R5')
+
   chk.rule('C01-R4', 'several rules are combined with UNION ALL and no '
            'DISTINCT; GROUP BY is emitted only for distinct_vars',
            min_instances=3)
   union_all(chk, 'C01-R4')
+
+
+# ---------------------------------------------------------------------------
+def merge_and_product(chk, rid):
+  """Conjunction multiplies, disjunction adds; injection merges every
+  component of the injected structure; WHERE is a conjunction."""
+  repo = chk.repo
+  # InjectStructure merges every constraint-carrying component
+  inj = repo.func('universe.InjectStructure')
+  params = inj.params
+  if len(params) != 2:
+    raise AnalysisError('InjectStructure(target, source) signature changed')
+  tgt, src = params
+  merged = {}
+  for c in walk_local(inj.node):
+    if isinstance(c, ast.Call) and call_tail(c) in ('update', 'extend') and \
+        isinstance(c.func, ast.Attribute) and isinstance(c.func.value, ast.Attribute) and \
+        dotted(c.func.value.value) == tgt and c.args and \
+        isinstance(c.args[0], ast.Attribute) and dotted(c.args[0].value) == src:
+      merged[c.func.value.attr] = c.args[0].attr
+  rs = repo.by_name('rule_translate').cls('RuleStructure')
+  init = rs.methods['__init__']
+  carried = set()
+  for x in walk_local(init.node):
+    if isinstance(x, ast.Assign) and dotted(x.targets[0]) and dotted(x.targets[0]).startswith('self.'):
+      name = dotted(x.targets[0])[5:]
+      if isinstance(x.value, (ast.List, ast.Dict)) and name not in ('select', 'distinct_vars', 'vars_heritage_map'):
+        carried.add(name)
+  # tables are handled by RunInjections itself (new_tables)
+  need = carried - {'tables'}
+  for name in sorted(need):
+    chk.ob(rid, merged.get(name) == name, None,
+           'InjectStructure merges source.%s into target.%s' % (name, name),
+           'an injected rule loses its %s: the host query no longer carries '
+           'the conditions / variables of the inlined predicate' % name, fi=inj)
+  # DNF: conjunction = cartesian product (a + b), disjunction = concatenation
+  cj = repo.func('parse.DisjunctiveNormalForm.ConjunctionOfDnfs')
+  loops = [x for x in walk_local(cj.node) if isinstance(x, ast.For)]
+  nested = [l for l in loops if any(isinstance(y, ast.For) for y in l.body)]
+  app = [c for c in walk_local(cj.node) if isinstance(c, ast.Call) and call_tail(c) == 'append'
+         and c.args and isinstance(c.args[0], ast.BinOp) and isinstance(c.args[0].op, ast.Add)]
+  rec = [c for c in walk_local(cj.node) if isinstance(c, ast.Call) and call_tail(c) == 'ConjunctionOfDnfs']
+  chk.ob(rid, bool(nested) and bool(app) and bool(rec), None,
+         'conjunction of DNFs is the product of the alternatives (a + b for all pairs)',
+         'the DNF of a conjunction is not the cartesian product of the DNFs of '
+         'its conjuncts: alternatives are lost or duplicated', fi=cj)
+  dj = repo.func('parse.DisjunctiveNormalForm.DisjunctsToDNF')
+  cat = [x for x in walk_local(dj.node) if isinstance(x, ast.AugAssign) and isinstance(x.op, ast.Add)] + \
+      [c for c in walk_local(dj.node) if isinstance(c, ast.Call) and call_tail(c) == 'extend']
+  inloop = [x for x in walk_local(dj.node) if isinstance(x, ast.For)]
+  chk.ob(rid, bool(cat) and bool(inloop), None,
+         'disjunction of DNFs is the concatenation of the alternatives',
+         'alternatives of a disjunction are not all kept', fi=dj)
+  r2r = repo.func('parse.DisjunctiveNormalForm.RuleToRules')
+  cp = [c for c in walk_local(r2r.node) if isinstance(c, ast.Call) and call_tail(c) == 'deepcopy']
+  chk.ob(rid, len(cp) >= 2, None, 'each alternative becomes its own deep-copied rule',
+         'rules generated from one disjunction share sub-trees: later in-place '
+         'rewrites of one alternative change the others', fi=r2r)
+  # WHERE is a conjunction of all (non-ephemeral) constraints; FROM a comma list
+  v = FnView(repo, K.ASSQL)
+  joins = [c for n, c in v.all_calls() if call_tail(c) == 'join' and
+           isinstance(c.func, ast.Attribute) and const_str(c.func.value) is not None]
+  where = [c for c in joins if 'constraints' in norm(c.args[0] if c.args else c)]
+  chk.ob(rid, bool(where) and all(sql_tokens(const_str(c.func.value)) == ['AND'] for c in where),
+         None, 'WHERE joins the constraints with AND',
+         'constraints are combined with %s' % [const_str(c.func.value) for c in where], fi=v.fi)
+  frm = [c for c in joins if dotted(c.args[0]) == 'tables' if c.args]
+  chk.ob(rid, bool(frm) and all(const_str(c.func.value).strip() == ',' for c in frm), None,
+         'FROM is a comma (cross) join of the tables',
+         'tables are combined with %r' % [const_str(c.func.value) for c in frm], fi=v.fi)
+  loops = [x for x in walk_local(v.fi.node) if isinstance(x, ast.For) and
+           dotted(x.iter) == 'self.constraints']
+  skipped = set()
+  for l in loops:
+    for x in ast.walk(l):
+      if isinstance(x, ast.Compare) and isinstance(x.ops[0], ast.NotIn):
+        d = dotted(x.comparators[0])
+        for y in v.assigned_from(d) if d else []:
+          try:
+            skipped |= set(tables.const_value(y))
+          except AnalysisError:
+            pass
+  chk.ob(rid, bool(loops) and skipped <= {'~'}, None,
+         'every constraint except the type hint ~ reaches WHERE',
+         'constraints with predicate %s are dropped from WHERE' % sorted(skipped - {'~'}), fi=v.fi)
+  # every argument of a predicate call becomes a column unification
+  eps = repo.func('rule_translate.ExtractPredicateStructure')
+  loops = [x for x in walk_local(eps.node) if isinstance(x, ast.For) and 'field_value' in norm(x.iter)]
+  ok = False
+  for l in loops:
+    apps = [c for c in ast.walk(l) if isinstance(c, ast.Call) and call_tail(c) == 'append'
+            and 'vars_unification' in norm(c.func)]
+    maps = [x for x in ast.walk(l) if isinstance(x, ast.Assign) and isinstance(x.targets[0], ast.Subscript)
+            and 'vars_map' in norm(x.targets[0].value)]
+    if apps and len(maps) >= 2:
+      ok = True
+  chk.ob(rid, ok, None, 'every argument of a body literal yields a column variable and a unification',
+         'arguments of predicate calls are not all tied to the columns of the table', fi=eps)
+  u2c = repo.func(K.U2C)
+  dicts = tables.find_dicts_with(u2c.node, 'predicate_name', '==')
+  sides = {const_str(k) for d in ast.walk(u2c.node) if isinstance(d, ast.Dict)
+           for k, val in zip(d.keys, d.values) if const_str(k) == 'field'
+           for k in [val]}
+  fields = set()
+  for d in ast.walk(u2c.node):
+    if isinstance(d, ast.Dict):
+      kv = {const_str(k): val for k, val in zip(d.keys, d.values) if k is not None}
+      if 'field' in kv and const_str(kv['field']):
+        fields.add(const_str(kv['field']))
+  chk.ob(rid, bool(dicts) and fields == {'left', 'right'}, None,
+         'a remaining unification becomes the constraint left == right',
+         'unifications become %s constraints over %s' % (
+             'no' if not dicts else '==', sorted(fields)), fi=u2c)
 
 
 # ---------------------------------------------------------------------------
